@@ -132,7 +132,7 @@ func removalMutants(base *Program, idPrefix string, max int, r interface{ Intn(i
 func nearMissCases() []*RejectCase {
 	var out []*RejectCase
 	forms := []string{"ptr-for-value", "value-for-ptr", "impl-for-iface", "underlying-for-named", "named-for-underlying", "alias-for-original", "other-instantiation", "other-instantiation-nested", "other-spelling"}
-	positions := []string{"result", "func-param", "func-param-after-have", "struct-field", "struct-field-after-have", "bind-concrete", "fields-parent", "fields-parent-ptr-to-field"}
+	positions := []string{"result", "func-param", "func-param-after-have", "struct-field", "struct-field-after-have", "struct-star-embedded", "bind-concrete", "fields-parent", "fields-parent-ptr-to-field", "dep-of-fields-parent"}
 	n := 0
 	for _, form := range forms {
 		for _, pos := range positions {
@@ -214,6 +214,34 @@ func nearMissCases() []*RejectCase {
 				s := b.NamedOf(0, "Holder", StructOf(FieldT{Name: "H", Ty: have}, FieldT{Name: "F", Ty: need}), "none")
 				items = append(items, b.Struct(s, false, "H", "F"))
 				result = s
+			case "struct-star-embedded":
+				// "*" over a struct that embeds the needed type
+				if accept {
+					continue
+				}
+				base := need
+				if base.K == "ptr" {
+					base = base.Elem
+				}
+				if base.K != "named" || base.Decl.Alias {
+					continue
+				}
+				s := b.NamedOf(0, "Holder", StructOf(FieldT{Name: base.Decl.Name, Ty: need, Embedded: true}, FieldT{Name: "Other", Ty: Basic("bool")}), "none")
+				ob := b.Func(0, "NewOther", Basic("bool"), false, false)
+				ob.Stub = true
+				items = append(items, ob, b.Struct(s, true))
+				result = s
+			case "dep-of-fields-parent":
+				// the needed type is an input of the provider of a struct a field is selected from
+				if accept {
+					continue
+				}
+				ft := b.NamedOf(0, "FldT", StructOf(FieldT{Name: "Y", Ty: Basic("bool")}), "none")
+				par := b.NamedOf(0, "Par", StructOf(FieldT{Name: "X", Ty: Basic("bool")}, FieldT{Name: "Fld", Ty: ft}), "none")
+				pf := b.Func(0, "NewPar", PtrTo(par), false, false, need)
+				pf.Stub = true
+				items = append(items, pf, b.Fields(PtrTo(par), "Fld"))
+				result = ft
 			case "fields-parent", "fields-parent-ptr-to-field":
 				// a field selection whose parent is `need`; only `have` is provided
 				if form != "ptr-for-value" && form != "value-for-ptr" && form != "alias-for-original" {
@@ -670,6 +698,7 @@ func CheckC08(e *Env) int {
 		cases = append(cases, ms...)
 	}
 	cases = append(cases, indirectUseControls()...)
+	cases = append(cases, unusedBindAroundChains()...)
 	// bindings and providers met in every visiting order: each contributes, so none may be
 	// reported; with one more item added, exactly that item is
 	for i, p := range bindOrderFamily("bu", e.Seed, e.tierN(3, 1)) {
@@ -726,5 +755,55 @@ func passThroughBases() []*Program {
 		par := b.P.NewDecl(0, "Parent", StructOf(idField, FieldT{Name: "Fld", Ty: f}), "parent")
 		b.Inj("Init", f, false, false, []Param{{Name: "p", Ty: Named(par)}}, ItemRef(b.Fields(Named(par), "Fld").ID))
 	})
+	return out
+}
+
+// unusedBindAroundChains: a superfluous binding listed before, between or after the links of a
+// binding chain that is written in an order in which some links have to wait for later ones.
+// Whatever bookkeeping resolves the chain, the superfluous binding stays a direct item that
+// contributes nothing.
+func unusedBindAroundChains() []*RejectCase {
+	var out []*RejectCase
+	n := 0
+	for _, order := range [][]int{{0, 1}, {1, 0}, {2, 1, 0}, {1, 2, 0}, {2, 0, 1}} {
+		for pos := 0; pos <= len(order); pos++ {
+			n++
+			b := NewPB(fmt.Sprintf("ubc%02d", n), "app")
+			c := b.Carrier(0, "Conc")
+			i1 := b.Iface(0, "I1", PtrTo(c), true)
+			m := i1.Decl.Under.Meths[0]
+			mk := func(name string) *Ty {
+				return Named(b.P.NewDecl(0, name, &Ty{K: "iface", Meths: []string{m}, Params: []*Ty{PtrTo(c)}}, "iface"))
+			}
+			i2, i3, extra := mk("I2"), mk("I3"), mk("Extra")
+			links := []*Item{b.Bind(i1, PtrTo(c)), b.Bind(i2, i1), b.Bind(i3, i2)}
+			top := i2
+			if len(order) == 3 {
+				top = i3
+			}
+			sup := b.Bind(extra, PtrTo(c))
+			f := b.Func(0, "NewConc", PtrTo(c), false, false)
+			f.Stub = true
+			u := b.Carrier(0, "User")
+			fu := b.Func(0, "NewUser", u, false, false, top)
+			fu.Stub = true
+			build := []Ref{ItemRef(f.ID)}
+			for k, x := range order {
+				if k == pos {
+					build = append(build, ItemRef(sup.ID))
+				}
+				build = append(build, ItemRef(links[x].ID))
+			}
+			if pos == len(order) {
+				build = append(build, ItemRef(sup.ID))
+			}
+			build = append(build, ItemRef(fu.ID))
+			b.Inj("Init", u, false, false, nil, build...)
+			cell := fmt.Sprintf("unused-binding-around-chain/order=%v/at=%d", order, pos)
+			b.P.Note = cell
+			b.P.Feat = map[string]string{"cell": cell}
+			out = append(out, &RejectCase{P: b.P, Class: "unused", MustName: []string{DiagName(b.P, extra)}, Cell: cell})
+		}
+	}
 	return out
 }
